@@ -2,7 +2,7 @@
    Writer model: write_volume / par1_outputs (par1/volume.go, encoder.go); reader model: read_volume,
    p1_load (volume.go, decoder.go). *)
 From Gopar Require Import Model.Base Model.Matrix Model.GF8 Model.CRC Model.GoPath Model.FS Model.Par1
-     Proofs.LinAlg Proofs.GF8Facts Proofs.Par1Facts Proofs.Utf16Facts.
+     Proofs.LinAlg Proofs.GF8Facts Proofs.Par1Facts Proofs.Utf16Facts Model.Par1Spec Proofs.Par1Clean Proofs.Par1RoundTrip Proofs.Par1SpecFacts Proofs.Par1SpecSet Proofs.Par2Facts.
 Open Scope N_scope.
 
 (* parity volume v (numbered from 1; row v-1) holds, byte by byte, the sum over files i (numbered from 1)
@@ -59,3 +59,85 @@ Theorem C10_utf16_example :
   encode_utf16le name = [97; 0; 52; 216; 30; 221; 233; 0] /\ decode_utf16le (encode_utf16le name) = name.
 Proof. vm_compute. split; reflexivity. Qed.
 Print Assumptions C10_utf16_example.
+
+(* AGAINST A SPECIFICATION-SIDE VALIDATOR (Model/Par1Spec.v: written from the PAR 1.0 layout, sharing with the
+   implementation model only md5, little-endian decoding and the shift-and-add product modulo 0x11D - no reader or
+   writer function, no par1_encode, its own strict UTF-16 decoder; the file list and the data area are located by
+   the offset fields).  WRITER: for ALL inputs the files Create writes are a valid PAR 1.0 set for these inputs -
+   identification, version, control hash, set hash, counts, offsets and sizes, every entry (status, size, MD5,
+   16k-MD5, UTF-16LE name compared on the scalar-value level), identical file lists, and every parity byte equal
+   to the specification's double sum - and they are written to <base>.par, <base>.p01 .. *)
+From Coq Require Import List. Import ListNotations.
+Theorem C10_writer_conforms : forall md5, (forall x, length (md5 x) = 16%nat) ->
+  forall parPath nvol names datas outs,
+  length names = length datas ->
+  Forall input_name_wf names -> Forall wf_bytes datas ->
+  Forall (fun d : bytes => N.of_nat (length d) < 2^64) datas ->
+  par1_outputs md5 parPath nvol names datas = Ok outs ->
+  Forall (fun o : list N * bytes => N.of_nat (length (snd o)) < 2^64) outs ->
+  valid_par1_set md5 names datas nvol (map snd outs) = true /\
+  map fst outs = (strip_ext parPath ++ EXT_PAR) :: map (fun j => volume_path parPath (N.of_nat (S j))) (seq 0 nvol).
+Proof. exact par1_writer_conforms. Qed.
+Print Assumptions C10_writer_conforms.
+
+(* READER, one file: every byte string the specification-side parser accepts - any client id, any comment in the
+   index, entries with status bit 0 clear anywhere, other status bits, names with surrogate pairs - whose file list
+   stands directly behind the header with the data behind it up to the end of the file (what gopar's reader
+   requires beyond the layout: Par1SpecFacts.reader_requires_list_at_0x60_refuted, reader_ignores_data_fields_refuted)
+   and whose names are non-empty is read by gopar's reader to exactly the parsed fields *)
+Theorem C10_reader_accepts_conformant : forall md5 b sv,
+  s1_parse md5 b = Some sv -> N.of_nat (length b) < 2^64 ->
+  sv_flo sv = 96 -> sv_do sv = 96 + sv_flb sv -> sv_do sv + sv_db sv = N.of_nat (length b) ->
+  Forall (fun e => name16_ok (se_name16 e)) (sv_entries sv) ->
+  exists v, read_volume md5 b = Ok v /\ v_number v = sv_number sv /\ v_count v = sv_count sv /\
+    v_entries v = map entry_of_spec (sv_entries sv) /\ v_data v = sv_data sv /\
+    v_sethash_stored v = sv_sethash sv /\ v_sethash v = v_sethash_stored v.
+Proof. exact par1_reader_accepts_conformant. Qed.
+Print Assumptions C10_reader_accepts_conformant.
+
+(* READER, whole sets by ANY conformant writer ([s1_set_valid]: any comment, entries not saved in the parity set
+   anywhere among the saved ones, any status bits): with the saved files present Verify counts nothing unusable
+   and Repair rewrites nothing; with any saved files missing, at most as many as there are volumes, Repair
+   succeeds and writes exactly the missing files with their original bytes. *)
+Theorem C10_verify_conformant_set : forall md5, (forall x, length (md5 x) = 16%nat) ->
+  forall ix files comment nvol outs fs all,
+  str_eqb (ext ix) EXT_PAR = true -> s1_set_valid md5 files comment nvol outs = true ->
+  forallb (s1_contiguous md5) outs = true -> Forall (fun o : bytes => N.of_nat (length o) < 2^64) outs ->
+  Forall (fun f => sf_name f <> []) files ->
+  let sd := s1_saved_datas files in Forall wf_bytes sd -> max_len sd <> 0%nat ->
+  (1 <= nvol <= maxvol files)%nat ->
+  fs_lookup fs ix = Some (nth 0 outs []) ->
+  (forall k, (1 <= k <= nvol)%nat -> fs_lookup fs (volume_path ix (N.of_nat k)) = Some (nth k outs [])) ->
+  (forall k, (nvol < k <= maxvol files)%nat -> read_res fs (volume_path ix (N.of_nat k)) = Err ENotExist) ->
+  (forall f, In f files -> sf_saved f = true ->
+     base (sf_name f) = sf_name f /\ fs_lookup fs (join2 (dir ix) (sf_name f)) = Some (sf_data f)) ->
+  (exists c st, par1_verify md5 ix all (io_init fs []) = (Ok (c, all), st) /\
+     fc_unusable c = 0%nat /\ fc_punusable c = 0%nat /\ fc_usable c = length sd /\ fc_pusable c = nvol) /\
+  (forall dbl r rp st', par1_repair md5 ix dbl (io_init fs []) = ((r, rp), st') -> rp = [] /\ io_fs st' = fs).
+Proof. exact par1_verify_conformant_set. Qed.
+Print Assumptions C10_verify_conformant_set.
+
+Theorem C10_repair_conformant_set : forall md5, (forall x, length (md5 x) = 16%nat) ->
+  forall ix files comment nvol outs fs (kept : s1file -> bool) dbl r rp st',
+  str_eqb (ext ix) EXT_PAR = true ->
+  s1_set_valid md5 files comment nvol outs = true ->
+  forallb (s1_contiguous md5) outs = true ->
+  Forall (fun o : bytes => N.of_nat (length o) < 2^64) outs ->
+  Forall (fun f => sf_name f <> []) files ->
+  let sfiles := filter sf_saved files in
+  let sd := s1_saved_datas files in
+  Forall wf_bytes sd -> max_len sd <> 0%nat ->
+  (1 <= nvol <= maxvol files)%nat ->
+  fs_lookup fs ix = Some (nth 0 outs []) ->
+  (forall k, (1 <= k <= nvol)%nat -> fs_lookup fs (volume_path ix (N.of_nat k)) = Some (nth k outs [])) ->
+  (forall k, (nvol < k <= maxvol files)%nat -> read_res fs (volume_path ix (N.of_nat k)) = Err ENotExist) ->
+  (forall f, In f files -> sf_saved f = true ->
+     base (sf_name f) = sf_name f /\
+     if kept f then fs_lookup fs (fpath ix f) = Some (sf_data f) else read_res fs (fpath ix f) = Err ENotExist) ->
+  let lost := filter (fun f => negb (kept f)) sfiles in
+  (length lost <= nvol)%nat ->
+  par1_repair md5 ix dbl (io_init fs []) = ((r, rp), st') ->
+  let ws := map (fun f => (fpath ix f, sf_data f)) lost in
+  r = Ok tt /\ rp = map fst ws /\ io_fs st' = apply_writes ws fs.
+Proof. exact par1_repair_conformant_set. Qed.
+Print Assumptions C10_repair_conformant_set.
